@@ -85,7 +85,7 @@ def run_sequences(name, n_seq, n_ops):
         for step in range(n_ops):
             cases += 1
             op = rnd.choice(['add', 'add', 'add_no_lock', 'adds', 'remove', 'remove_no_lock', 'removes', 'update',
-                             'update_no_lock', 'updates', 'clear', 'dup_add', 'remove_absent'])
+                             'update_no_lock', 'updates', 'clear', 'dup_add', 'remove_absent', 'dup_update'])
             before = snapshot(table)
             try:
                 if op in ('add', 'add_no_lock'):
@@ -107,6 +107,33 @@ def run_sequences(name, n_seq, n_ops):
                         if snapshot(table) != before:
                             bad.append({'key': f'{name}:failed-add-changed-table',
                                         'detail': f'{name}: rejected add_object (duplicate {unique_attr}) changed the table'})
+                    continue
+                elif op == 'dup_update' and len(table._objects) > 1:
+                    # rejected update: the unique attribute is changed in place to a value another stored object has;
+                    # the caller then takes the change back and re-indexes again (or removes the object) - afterwards
+                    # every lookup must agree with a scan again
+                    o, src = rnd.sample(list(table._objects), 2)
+                    old = getattr(o, unique_attr)
+                    setattr(o, unique_attr, getattr(src, unique_attr))
+                    how = rnd.choice(['update_object', 'update_object_no_lock', 'update_objects'])
+                    try:
+                        getattr(table, how)([o] if how == 'update_objects' else o)
+                        bad.append({'key': f'{name}:duplicate-unique-key-accepted', 'detail': f'{name}: {how} accepted a second object with {unique_attr}={getattr(src, unique_attr)!r}'})
+                        break
+                    except KeyError:
+                        pass
+                    setattr(o, unique_attr, old)
+                    try:
+                        if rnd.random() < 0.5:
+                            table.update_object(o)
+                        else:
+                            table.remove_object(o)
+                        err = scan_check(table, key_funcs, f'{name} after a rejected {how} was taken back (sequence {s}, step {step})')
+                    except Exception as exc:  # noqa: BLE001
+                        err = f'{name}: object is stuck after a rejected {how} (duplicate {unique_attr}): {type(exc).__name__} {exc}'
+                    if err:
+                        bad.append({'key': f'{name}:rejected-update-leaves-object-stuck', 'detail': err})
+                        break
                     continue
                 elif op in ('remove', 'remove_no_lock') and table._objects:
                     o = rnd.choice(list(table._objects))
@@ -193,6 +220,6 @@ if __name__ == '__main__':
     n_seq, n_ops = (60, 60) if tier() == 'quick' else (600, 120)
     for nm in CONFIGS:
         c.run(f'C11.model_based.{nm}', 'B', lambda nm=nm: run_sequences(nm, n_seq, n_ops),
-              bound=f'{n_seq} seeded random sequences x {n_ops} operations (add/update+reindex/remove/clear/failed add)')
+              bound=f'{n_seq} seeded random sequences x {n_ops} operations (add/update+reindex/remove/clear/failed add/rejected update)')
     c.run('C11.model_based.subscriptions', 'B', subscriptions_table, bound='seeded random add/remove sequence')
     c.emit()
